@@ -818,6 +818,116 @@ impl<'a> B<'a> {
         }
     }
 
+    /// a plain chain of `depth` fresh blank nodes under `parent`; returns the nodes, the last one has no property yet
+    fn bare_chain(&mut self, parent: T, depth: usize, g: &Option<T>, side_branches: bool) -> Vec<T> {
+        self.max_depth = self.max_depth.max(depth);
+        let mut nodes = vec![];
+        let mut cur = parent;
+        for _ in 0..depth {
+            let b = self.fresh();
+            let p = self.a_pred();
+            self.add(cur.clone(), p, b.clone(), g);
+            if side_branches && self.rng.chance(1, 4) {
+                match self.rng.below(3) {
+                    0 => {
+                        let (p, o) = (self.a_pred(), self.a_ground_object());
+                        self.add(b.clone(), p, o, g);
+                    }
+                    1 => {
+                        // a small inlinable subtree beside the chain
+                        let c = self.fresh();
+                        self.add(b.clone(), iri("x:side"), c.clone(), g);
+                        self.add(c, iri("x:p"), iri("x:o"), g);
+                    }
+                    _ => {
+                        let (head, _) = self.list(2, 0, g);
+                        self.add(b.clone(), iri("x:items"), head, g);
+                    }
+                }
+            }
+            nodes.push(b.clone());
+            cur = b;
+        }
+        nodes
+    }
+
+    /// chains of blank nodes around the nesting cap of the pretty printer (MAX_BNODE_NESTING = 64: nodes met at the
+    /// cap are labelled and described in a tree of their own): 60..70 links (boundary) or 128..140 (two caps)
+    pub fn cap_chain(&mut self, g: &Option<T>) -> usize {
+        let depth = if self.rng.chance(2, 3) { self.rng.range(60, 70) } else { self.rng.range(126, 140) };
+        let root = match self.rng.below(4) {
+            0 => self.fresh(),
+            _ => self.an_iri(),
+        };
+        match self.rng.below(6) {
+            0 => {
+                self.tags.push("cap_plain");
+                let nodes = self.bare_chain(root, depth, g, false);
+                let (p, o) = (self.a_pred(), self.a_ground_object());
+                self.add(nodes.last().unwrap().clone(), p, o, g);
+            }
+            1 => {
+                self.tags.push("cap_side_branches");
+                let nodes = self.bare_chain(root, depth, g, true);
+                let (p, o) = (self.a_pred(), self.a_ground_object());
+                self.add(nodes.last().unwrap().clone(), p, o, g);
+            }
+            2 => {
+                // the chain ends in a collection whose items are blank nodes with properties (met beyond the cap)
+                self.tags.push("cap_ends_in_list");
+                let nodes = self.bare_chain(root, depth, g, false);
+                let n = self.rng.range(1, 4);
+                let (head, _) = self.list(n, 1, g);
+                self.add(nodes.last().unwrap().clone(), iri("x:items"), head, g);
+            }
+            3 => {
+                // the chain hangs below an item of a collection
+                self.tags.push("cap_below_list_item");
+                let cells: Vec<T> = (0..3).map(|_| self.fresh()).collect();
+                let item = self.fresh();
+                for i in 0..3 {
+                    let it = if i == 1 { item.clone() } else { self.a_ground_object() };
+                    self.add(cells[i].clone(), rdf("first"), it, g);
+                    let rest = if i + 1 < 3 { cells[i + 1].clone() } else { rdf("nil") };
+                    self.add(cells[i].clone(), rdf("rest"), rest, g);
+                }
+                self.add(root, iri("x:list"), cells[0].clone(), g);
+                let side = self.rng.chance(1, 2);
+                let nodes = self.bare_chain(item, depth, g, side);
+                self.add(nodes.last().unwrap().clone(), iri("x:p"), iri("x:end"), g);
+            }
+            4 => {
+                // two chains sharing their deep end (that node has two incoming arcs: labelled from the start)
+                self.tags.push("cap_shared_end");
+                let n1 = self.bare_chain(root.clone(), depth, g, false);
+                let d2 = if self.rng.chance(1, 2) { depth } else { self.rng.range(60, 70) };
+                let root2 = self.an_iri();
+                let n2 = self.bare_chain(root2, d2, g, false);
+                let end = self.fresh();
+                self.add(n1.last().unwrap().clone(), iri("x:p"), end.clone(), g);
+                self.add(n2.last().unwrap().clone(), iri("x:p"), end.clone(), g);
+                self.add(end.clone(), iri("x:p"), iri("x:end"), g);
+                // and something inlinable below the shared end
+                self.deep_chain(end, 3, g);
+            }
+            _ => {
+                // a chain under an annotation, and a second chain beside it in the same tree (the counter is per tree)
+                self.tags.push("cap_two_in_one_tree");
+                let n1 = self.bare_chain(root.clone(), depth, g, false);
+                self.add(n1.last().unwrap().clone(), iri("x:p"), iri("x:end1"), g);
+                let n2 = self.bare_chain(root.clone(), 66, g, false);
+                self.add(n2.last().unwrap().clone(), iri("x:q"), iri("x:end2"), g);
+                let s = self.an_iri_not_nil();
+                self.add(s.clone(), iri("x:p"), iri("x:o"), g);
+                let b = self.fresh();
+                self.add(tr(s, iri("x:p"), iri("x:o")), iri("x:by"), b.clone(), g);
+                let n3 = self.bare_chain(b, 64, g, false);
+                self.add(n3.last().unwrap().clone(), iri("x:p"), iri("x:end3"), g);
+            }
+        }
+        depth
+    }
+
     /// one large dataset; returns nothing, fills `self.quads`
     pub fn big(&mut self) {
         let ngraphs = if self.trig { [1, 2, 5, 8, 14][self.rng.below(5)] } else { 1 };
@@ -1080,6 +1190,54 @@ pub fn generate(ctx: &mut GenCtx) {
     }
     // ---- 6. generalized RDF through the pretty TriG writer (differential with the model only)
     generate_generalized(ctx, &pms);
+    // ---- 7. blank-node chains around the nesting cap of the pretty printer
+    let n_cap = if ctx.thorough { 400 } else { 48 };
+    for i in 0..n_cap {
+        let trig = ctx.rng.chance(1, 2);
+        let pretty = !ctx.rng.chance(1, 10);
+        let indent = if ctx.rng.chance(3, 4) { "" } else { ps(&mut ctx.rng, INDENTS) };
+        let pm = if ctx.rng.chance(1, 2) { None } else { ctx.rng.pick(&pms).clone() };
+        let (mut quads, tags, depth, named) = {
+            let mut b = B::new(&mut ctx.rng, trig);
+            let g = if trig && b.rng.chance(2, 3) { Some(iri("http://ex.org/g1")) } else { None };
+            let depth = b.cap_chain(&g);
+            if b.rng.chance(1, 3) {
+                // something else in the dataset: another graph, or a second deep chain in another graph
+                let g2 = b.a_graph();
+                if b.rng.chance(1, 2) {
+                    b.cap_chain(&g2);
+                } else {
+                    b.fragment(&g2);
+                }
+            }
+            (b.quads, b.tags, depth, g.is_some())
+        };
+        for k in (1..quads.len()).rev() {
+            let j = ctx.rng.below(k + 1);
+            quads.swap(k, j);
+        }
+        quads.dedup();
+        for t in &tags {
+            if t.starts_with("cap_") {
+                ctx.stats.bump(&format!("shape.{}", t));
+            }
+        }
+        ctx.stats.bump("cap.requests");
+        ctx.stats.bump(if named { "cap.named_graph" } else { "cap.default_graph" });
+        ctx.stats.bump(match depth {
+            0..=63 => "cap.depth<64",
+            64 => "cap.depth=64",
+            65 => "cap.depth=65",
+            66..=127 => "cap.depth66..127",
+            _ => "cap.depth>=128",
+        });
+        if i < 1 {
+            ctx.stats.sample(format!("cap {:?} depth {} {} quads", tags, depth, quads.len()));
+        }
+        let alt = ctx.rng.chance(1, 6);
+        size_stats(ctx, &quads, indent, alt);
+        emit_ser_api(ctx, trig, alt, pretty, indent, &pm, &quads);
+    }
 }
 
 /// section 6 of `generate`
